@@ -48,13 +48,17 @@ META = {
                   "TimeoutError+cancellation. add_callback from 2-8 real threads plus the loop thread under yield injection: "
                   "exactly once, per-thread order, on the loop thread, no lost wake-up.",
     "level_note": "Interleavings of the threaded part are sampled (distinct executed-thread-sequences are counted in evidence). "
-                  "Order among timeouts whose deadlines are equal within 4 ulp or already in the past when scheduled is unspecified. "
+                  "A deadline already past when the scheduling call is made is read as 'due at the call': a pair of timeouts is gated "
+                  "when written and effective (max(deadline, time of the call)) deadlines order it the same way by > 8 ulp; pairs "
+                  "the two readings order differently and ties within 8 ulp are unspecified. "
                   "Which logger carries the error record is not pinned by the statement (tornado.application or asyncio accepted).",
     "design_ref": "DESIGN.md §4 C38",
     "engine": "vloop+shake",
 }
 RULE = ("prog: random trees of <=12 scheduling units over {add_callback, spawn_callback, add_timeout abs/timedelta, call_later, "
-        "call_at, remove_timeout, add_future(done|pending|concurrent), sleep}; non-trivial if it has >=2 timeouts with distinct "
+        "call_at, remove_timeout, add_future(done|pending|concurrent), sleep, busy (slow callback: the virtual clock advances "
+        "inside a callback / the main step so pending deadlines pass)}, deadlines relative to now (incl. negative, "
+        "several magnitudes) or anchored at the program start (past by the time of the call); non-trivial if it has >=2 timeouts with distinct "
         "deadlines or a removal or an error-raising unit, and >=4 units; sync: run_sync (function kind x outcome x timeout); "
         "thr: (threads, callbacks per thread, start phase, shake seed), non-trivial if >=2 producer threads; distinct by case tuple")
 FLOORS = {"quick": 1500, "thorough": 60000}
@@ -64,7 +68,8 @@ ASSUMPTIONS = [
     "a stuck loop is reported only with the structural witness; otherwise the run is inconclusive",
 ]
 REQUIRED_COUNTERS = ["oracle_evals", "prog_units_run", "timeouts_run", "removed_before_run", "error_units_logged",
-                     "add_future_callbacks", "deadline_order_pairs", "run_sync_evals", "run_sync_timeouts",
+                     "add_future_callbacks", "deadline_order_pairs", "deadline_order_pairs_past_when_scheduled",
+                     "deadline_order_pairs_late_added_to_overdue_pending", "busy_steps", "run_sync_evals", "run_sync_timeouts",
                      "thr_runs", "thr_callbacks", "thr_parked_starts"]
 SHARD_TIMEOUT = {"quick": 200, "thorough": 3000}
 
@@ -87,7 +92,14 @@ def shards(tier, seed):
 # generators
 
 FORMS = ["abs", "td", "later", "at"]
-DELAYS = [0.0, 0.001, 0.001, 0.002, 0.005, 0.01, 0.01, 0.05, 0.1, 0.25, 1.0, 3.0, -0.5, 60.0]
+DELAYS = [0.0, 0.001, 0.001, 0.002, 0.005, 0.01, 0.01, 0.05, 0.1, 0.25, 1.0, 3.0, -0.5, 60.0,
+          -0.001, -0.004, -0.03, -0.15, -2.0]
+# deadlines anchored at the program's start time T0 (absolute appointments: they can be in the past, by any amount,
+# when the scheduling call is finally made after slow callbacks)
+ANCHORED = [0.0, 0.001, 0.002, 0.005, 0.01, 0.02, 0.05, 0.1, 0.25, 0.3, 1.0, 3.0]
+# ("busy", x): the running callback (or the main task step) is slow: the loop's clock advances by x while the loop
+# does not get control, so deadlines of pending timeouts pass while they are still pending
+BUSY = [0.0005, 0.002, 0.004, 0.02, 0.06, 0.12, 0.3, 0.3, 1.5, 4.0]
 RETS = [None, None, None, "failfut", "coro_raise", "coro_ok", "junk", "okfut"]
 
 
@@ -111,21 +123,27 @@ def gen_prog(rng):
                 break
             budget[0] -= 1
             r = rng.random()
-            if r < 0.22:
+            if r < 0.2:
                 nid[0] += 1
                 out.append(("cb" if rng.random() < 0.7 else "spawn", nid[0], beh(depth)))
-            elif r < 0.62:
+            elif r < 0.6:
                 nid[0] += 1
                 timeouts.append(nid[0])
-                out.append(("to", nid[0], rng.choice(FORMS), rng.choice(DELAYS), beh(depth)))
-            elif r < 0.77 and timeouts:
+                if rng.random() < 0.3:
+                    out.append(("to", nid[0], rng.choice(FORMS), rng.choice(ANCHORED), beh(depth), "t0"))
+                else:
+                    out.append(("to", nid[0], rng.choice(FORMS), rng.choice(DELAYS), beh(depth)))
+            elif r < 0.74 and timeouts:
                 out.append(("rm", rng.choice(timeouts)))
                 if rng.random() < 0.3:
                     out.append(("rm", out[-1][1]))
-            elif r < 0.9:
+            elif r < 0.86:
                 nid[0] += 1
                 out.append(("fut", nid[0], rng.choice(["done", "done_exc", "pending", "cdone", "cpending"]),
                             rng.choice([0.001, 0.01, 0.1]), beh(depth)))
+            elif r < 0.96:
+                budget[0] += 1          # a busy step is not a scheduling unit
+                out.append(("busy", rng.choice(BUSY)))
             elif depth == 0:
                 out.append(("sleep", rng.choice([0.0, 0.001, 0.003, 0.01, 0.2, 2.0])))
             else:
@@ -173,6 +191,17 @@ def directed_cases():
     yield {"k": "prog", "ops": [("to", 1, "later", 0.01, R), ("to", 2, "td", 0.02, B), ("to", 3, "abs", 0.005, B),
                                 ("rm", 2), ("rm", 2), ("cb", 4, {"raise": False, "ret": "failfut", "nested": []}),
                                 ("cb", 5, B), ("fut", 6, "done", 0.001, B), ("sleep", 0.2), ("rm", 1)]}
+    # slow callbacks: A pending, the clock passes A's deadline inside a callback, B (later deadline, also past) added;
+    # once from a loop callback, once from a timeout callback, once from the main task step, every deadline form
+    yield {"k": "prog", "ops": [("cb", 1, {"raise": False, "ret": None, "nested": [
+        ("to", 2, "abs", 0.05, B), ("busy", 0.25), ("to", 3, "abs", 0.1, B, "t0"), ("to", 4, "later", -0.1, B),
+        ("to", 5, "at", 0.3, B)]}), ("sleep", 0.2)]}
+    yield {"k": "prog", "ops": [("to", 1, "later", 0.01, {"raise": False, "ret": None, "nested": [
+        ("to", 2, "td", 0.002, B), ("to", 3, "at", 0.004, R), ("busy", 0.02), ("to", 4, "td", -0.015, B),
+        ("to", 5, "later", -0.001, B), ("cb", 6, B)]}), ("sleep", 1.0)]}
+    yield {"k": "prog", "ops": [("to", 1, "at", 0.005, B), ("to", 2, "td", 0.02, B), ("busy", 0.06),
+                                ("to", 3, "abs", 0.01, B, "t0"), ("to", 4, "later", 0.03, B, "t0"), ("cb", 5, B),
+                                ("sleep", 0.0)]}
     yield {"k": "sync", "kind": "coro_value", "dur": 2.0, "timeout": 0.1, "pre_raiser": True, "again": True}
     # zero timeout is a timeout (boundary: `if timeout:` vs `if timeout is not None:`)
     yield {"k": "sync", "kind": "coro_value", "dur": 0.4, "timeout": 0, "pre_raiser": False, "again": True}
@@ -190,12 +219,12 @@ def _sum_delays(ops):
     s = 0.0
     for op in ops:
         if op[0] == "to":
-            s += max(0.0, op[3]) + _sum_delays(op[4]["nested"])
+            s += abs(op[3]) + _sum_delays(op[4]["nested"])
         elif op[0] == "fut":
             s += op[3] + _sum_delays(op[4]["nested"])
         elif op[0] in ("cb", "spawn"):
             s += _sum_delays(op[2]["nested"])
-        elif op[0] == "sleep":
+        elif op[0] in ("sleep", "busy"):
             s += op[1]
     return s
 
@@ -271,9 +300,15 @@ def run_prog(case, ctx):
                     S["sched"][uid] = {"kind": "cb", "seq": tick()}
                     S["order_cb"].append(uid)
                     (io.add_callback if k == "cb" else io.spawn_callback)(make_fn(uid, beh, "cb"))
+                elif k == "busy":
+                    # a slow callback: the loop's clock moves on while the loop does not get control
+                    vl.advance_to(vl.time() + op[1])
+                    ctx.count("busy_steps")
                 elif k == "to":
-                    _, uid, form, d, beh = op
+                    _, uid, form, d, beh = op[:5]
                     now = io.time()
+                    if len(op) > 5 and op[5] == "t0":
+                        d = (S["t0"] + d) - now         # appointment relative to the program's start
                     fn = make_fn(uid, beh, "to")
                     if form == "abs":
                         D = now + d
@@ -332,6 +367,7 @@ def run_prog(case, ctx):
                         vl.call_later(d, resolve)
                     S["keep"].append(f)
 
+        S["t0"] = io.time()
         for op in case["ops"]:
             if op[0] == "sleep":
                 await asyncio.sleep(op[1])
@@ -393,24 +429,44 @@ def run_prog(case, ctx):
     ctx.check([u for _, u in ran_cb] == [u for u in S["order_cb"] if u in runs], "prog/add_callback-order-not-fifo",
               "callbacks added with add_callback did not run in scheduling order",
               {"scheduled": S["order_cb"], "ran": [u for _, u in ran_cb]})
-    # deadline order (ties within tolerance and past deadlines are free)
-    tos = [(u, rec) for u, rec in sched.items() if rec["kind"] == "to" and u in runs and rec["d"] >= 0.001
+    # deadline order.  "Not before their deadline ... in deadline order": of two timeouts that are both pending, the
+    # one with the earlier deadline runs first.  A deadline that is already past when the scheduling call is made
+    # cannot be honoured as written: the timeout is due at the moment of the call, so its *effective* deadline is
+    # max(deadline, io_loop.time() at the call).  A pair is gated when the written AND the effective deadlines order
+    # it the same way by more than the rounding tolerance (this includes: A pending, a slow callback lets the clock
+    # pass A's deadline, B is then added with a later deadline that is also already past -> A first).  Pairs the
+    # two readings order differently (B added with a past deadline *earlier* than that of a still pending overdue A),
+    # and ties within tolerance under either reading, stay unspecified.
+    tos = [(u, rec) for u, rec in sched.items() if rec["kind"] == "to" and u in runs
            and not (u in removed and removed[u] < runs[u][0][0])]
+    for u, rec in tos:
+        rec["E"] = max(rec["D"], rec["now"])
     for i, (u, ru) in enumerate(tos):
         for v, rv in tos[i + 1:]:
             a, b = (u, ru), (v, rv)
             if a[1]["D"] > b[1]["D"]:
                 a, b = b, a
-            if b[1]["D"] - a[1]["D"] <= 2 * TOL:
+            if b[1]["D"] - a[1]["D"] <= 2 * TOL or abs(b[1]["E"] - a[1]["E"]) <= 2 * TOL:
                 ctx.count("deadline_ties_unspecified")
                 continue
-            # a has the earlier deadline; gate when a was scheduled before b ran
+            if b[1]["E"] < a[1]["E"]:
+                ctx.count("unspecified_past_deadline_earlier_than_pending_overdue")
+                continue
+            # a has the earlier deadline (written and effective); gate when a was scheduled before b ran
             if a[1]["seq"] < runs[b[0]][0][0]:
                 ctx.count("deadline_order_pairs")
-                ctx.check(runs[a[0]][0][0] < runs[b[0]][0][0], "prog/timeouts-out-of-deadline-order",
+                cls = "timeouts-out-of-deadline-order"
+                if a[1]["E"] > a[1]["D"] or b[1]["E"] > b[1]["D"]:
+                    # at least one of the two was scheduled with its deadline already reached
+                    ctx.count("deadline_order_pairs_past_when_scheduled")
+                    cls = "overdue-timeouts-out-of-deadline-order"
+                    if b[1]["seq"] > a[1]["seq"] and b[1]["now"] > a[1]["D"] + 2 * TOL and a[1]["E"] == a[1]["D"]:
+                        # a was scheduled ahead of time and was overdue (slow callback) when b was added
+                        ctx.count("deadline_order_pairs_late_added_to_overdue_pending")
+                ctx.check(runs[a[0]][0][0] < runs[b[0]][0][0], "prog/" + cls,
                           "a timeout with a later deadline ran before one with an earlier deadline",
-                          {"early": {"unit": a[0], "D": a[1]["D"], "form": a[1]["form"]},
-                           "late": {"unit": b[0], "D": b[1]["D"], "form": b[1]["form"]}})
+                          {"early": {"unit": a[0], "D": a[1]["D"], "form": a[1]["form"], "scheduled_at": a[1]["now"]},
+                           "late": {"unit": b[0], "D": b[1]["D"], "form": b[1]["form"], "scheduled_at": b[1]["now"]}})
     ctx.check(not S["fut_inline"], "prog/add_future-callback-ran-inline",
               "an add_future callback ran before add_future (or the call resolving the future) returned",
               {"units": S["fut_inline"]})
